@@ -72,6 +72,9 @@ func poolScenarioP(cfg scenlib.PoolCfg, subs [][]jobSpec, closeAtEnd bool, preal
 						jid := base + k + 1
 						job := scenlib.Job(jid, js.kind, g)
 						switch js.via {
+						case "late": // submitted after the running jobs have outlasted the jam duration
+							time.Sleep(4 * time.Millisecond)
+							vsched.Event("sched", jid, scenlib.SchedErr(p.Schedule(job)))
 						case "schedule":
 							vsched.Event("sched", jid, scenlib.SchedErr(p.Schedule(job)))
 						case "timeout":
@@ -194,6 +197,10 @@ func scenarios(tier string) []*vsched.Scenario {
 			poolScenario(cfgs[1], [][]jobSpec{{js("timed", S), js("timed-panic", S), js("plain", T)}}, false, 1, false),
 			poolScenario(cfgs[3], [][]jobSpec{{js("timed-panic", S), js("timed", S), js("plain", S)}}, false, 2, true),
 			poolScenarioP(scenlib.PoolCfg{Cap: 2, Buf: 0, Max: 1, StandBy: 0, Batch: 1}, [][]jobSpec{{js("timed", S), js("timed", S)}}, false, 1, 1, false))
+		// jammed pool: all workers busy for longer than workerJamDuration (3 ms) when a late submission wakes the spawn loop
+		out = append(out,
+			poolScenario(scenlib.PoolCfg{Cap: 2, Buf: 1, Max: 1, StandBy: 1, Batch: 1, Jam: 3 * time.Millisecond}, [][]jobSpec{{js("timed", S), js("timed", S), js("plain", "late")}}, false, 1, false),
+			poolScenario(scenlib.PoolCfg{Cap: 2, Buf: 2, Max: 2, StandBy: 0, Batch: 1, Jam: 3 * time.Millisecond}, [][]jobSpec{{js("timed", S), js("timed", S), js("timed", S), js("plain", "late")}}, false, 1, true))
 		return out
 	}
 	cfgs = append(cfgs, scenlib.PoolCfg{Cap: 2, Buf: 2, Max: 1, StandBy: 1, Batch: 1}, scenlib.PoolCfg{Cap: 1, Buf: 1, Max: 2, StandBy: 2, Batch: 0})
@@ -214,6 +221,11 @@ func scenarios(tier string) []*vsched.Scenario {
 			poolScenarioP(c, [][]jobSpec{{js("slow", S), js("slow", S), js("slow", S)}}, false, c.Max, 1, false),
 			poolScenarioP(c, [][]jobSpec{{js("timed", S), js("timed", S)}}, false, c.Max, 1, false),
 			poolScenarioP(c, [][]jobSpec{{js("slow", S), js("slow", S)}}, false, c.Max, 3, true))
+		jc := c
+		jc.Jam = 3 * time.Millisecond
+		out = append(out,
+			poolScenario(jc, [][]jobSpec{{js("timed", S), js("timed", S), js("plain", "late")}}, false, 2, false),
+			poolScenario(jc, [][]jobSpec{{js("timed", S), js("timed", S), js("timed", S), js("plain", "late"), js("plain", "late")}}, false, 2, true))
 	}
 	return out
 }
